@@ -125,6 +125,12 @@ func (x *Exec) nativeMethod(e *Env, callee *types.Func, recv ast.Expr, n *ast.Ca
 		if !ok {
 			unsupported("crypto.Hash.New on %T", e.expr(recv))
 		}
+		if c, ok := x.simplifyWithPC(e.st, e.toIntTerm(fv)).Int64(); ok {
+			// a registered standard hash function given as a constant
+			if nm, ok := map[int64]string{3: "sha1", 5: "sha256", 7: "sha512", 9: "ripemd160", 17: "blake2b256"}[c]; ok {
+				return x.newHash(nm, nil), true
+			}
+		}
 		return x.newHash("cryptohash", fv.T), true
 	case "crypto.Hash.Size":
 		fv := e.expr(recv).(Scalar)
@@ -232,6 +238,8 @@ func (x *Exec) nativeFunc(e *Env, callee *types.Func, n *ast.CallExpr) (Value, b
 		}
 		r.Cap = r.Len
 		return r, true
+	case "math.Pow", "math.Log", "math.Ceil", "math.Floor", "math.Exp", "math.Sqrt", "math.Log2", "math.Abs":
+		return x.mathFloatFunc(e, key, n)
 	case "github.com/iotaledger/iota.go/curl.NewCurlP81":
 		h := x.newHash("curlp81", nil)
 		h.Elem = types.Typ[types.Int8]
@@ -570,9 +578,88 @@ func (x *Exec) compositeArrayOf(e *Env, n *ast.CompositeLit, u *types.Array, t t
 
 // ---------------------------------------------------------------- abstract values (filled in later)
 
+// absBinop: floating-point arithmetic is uninterpreted: every operation is a function symbol over the
+// abstract sort Float (no property of IEEE arithmetic is assumed; equal operands give equal results).
 func (x *Exec) absBinop(e *Env, op token.Token, a, b Value, at ast.Node) Value {
-	unsupported("%s: operator %s on abstract values", e.where, op)
+	fs := UnS("Float")
+	toF := func(v Value) (*Term, types.Type, bool) {
+		switch c := v.(type) {
+		case AbsV:
+			if c.T.S == fs {
+				return c.T, c.Typ, true
+			}
+		case UConst:
+			return App("float_const_"+sanitizeConst(c.V.ExactString()), fs), nil, true
+		}
+		return nil, nil, false
+	}
+	ta, tya, ok1 := toF(a)
+	tb, tyb, ok2 := toF(b)
+	if !ok1 || !ok2 {
+		unsupported("%s: operator %s on abstract values", e.where, op)
+	}
+	typ := tya
+	if typ == nil {
+		typ = tyb
+	}
+	x.trusted["floating-point operations as uninterpreted functions (no IEEE property assumed)"] = true
+	switch op {
+	case token.ADD:
+		return AbsV{App("fadd", fs, ta, tb), typ}
+	case token.SUB:
+		return AbsV{App("fsub", fs, ta, tb), typ}
+	case token.MUL:
+		return AbsV{App("fmul", fs, ta, tb), typ}
+	case token.QUO:
+		return AbsV{App("fdiv", fs, ta, tb), typ}
+	case token.LSS:
+		return Scalar{App("flt", BoolS, ta, tb), boolT}
+	case token.GTR:
+		return Scalar{App("flt", BoolS, tb, ta), boolT}
+	case token.LEQ:
+		return Scalar{App("fle", BoolS, ta, tb), boolT}
+	case token.GEQ:
+		return Scalar{App("fle", BoolS, tb, ta), boolT}
+	case token.EQL:
+		return Scalar{App("feq", BoolS, ta, tb), boolT}
+	case token.NEQ:
+		return Scalar{Not(App("feq", BoolS, ta, tb)), boolT}
+	}
+	unsupported("%s: operator %s on floating-point values", e.where, op)
 	return nil
+}
+
+func sanitizeConst(s string) string {
+	r := []rune{}
+	for _, c := range s {
+		if (c >= '0' && c <= '9') || (c >= 'a' && c <= 'z') || (c >= 'A' && c <= 'Z') {
+			r = append(r, c)
+		} else {
+			r = append(r, '_')
+		}
+	}
+	if len(r) > 40 {
+		r = r[:40]
+	}
+	return string(r)
+}
+
+// mathFloatFunc: math.Pow, Log, Ceil, ... as uninterpreted functions.
+func (x *Exec) mathFloatFunc(e *Env, name string, n *ast.CallExpr) (Value, bool) {
+	fs := UnS("Float")
+	var args []*Term
+	for _, a := range n.Args {
+		switch c := e.expr(a).(type) {
+		case AbsV:
+			args = append(args, c.T)
+		case UConst:
+			args = append(args, App("float_const_"+sanitizeConst(c.V.ExactString()), fs))
+		default:
+			return nil, false
+		}
+	}
+	x.trusted["floating-point operations as uninterpreted functions (no IEEE property assumed)"] = true
+	return AbsV{App("math_"+name, fs, args...), types.Typ[types.Float64]}, true
 }
 func (x *Exec) absField(e *Env, a AbsV, name string) Value {
 	unsupported("%s: field %s of abstract value", e.where, name)
